@@ -205,6 +205,10 @@ func (g *c20Gen) message(method string) proto.Message {
 		if r.Intn(3) == 0 {
 			q.SigningThreshold = q.Participants
 		}
+		if r.Intn(12) == 0 {
+			// A request that really creates an account (the write path of the account cache).
+			q = &pb.GenerateRequest{Account: "Wallet1/new" + fmt.Sprint(r.Intn(1000000)), Passphrase: []byte("pass"), Participants: 1, SigningThreshold: 1}
+		}
 		return q
 	case "/v1.WalletManager/Unlock":
 		return &pb.UnlockWalletRequest{Wallet: g.name(), Passphrase: hBytes(r, 4)}
@@ -396,7 +400,7 @@ func c20Child(cfg Cfg) int {
 	g := c20NewGen(cfg.Rand("c20-" + strings.Join(cfg.Args, "-")))
 	ctx := rig.HandlerCtx("client1", "10.0.0.1")
 	counts := map[string]int{}
-	canary := func(i int) bool {
+	canaryInner := func(i int) bool {
 		res, err := st.SignerH.Sign(ctx, &pb.SignRequest{Id: &pb.SignRequest_Account{Account: "Wallet1/canary"}, Data: Root32(byte(i)), Domain: Dom([]byte{9, 0, 0, 0}, 1)})
 		if err != nil || res.GetState() != pb.ResponseState_SUCCEEDED {
 			fmt.Printf("CHILD-VIOLATION after input %d the canary signing request is answered %v / %v\n", i, res.GetState(), err)
@@ -409,15 +413,42 @@ func c20Child(cfg Cfg) int {
 		}
 		return true
 	}
+	canary := func(i int) bool {
+		ch := make(chan bool, 1)
+		go func() { ch <- canaryInner(i) }()
+		select {
+		case ok := <-ch:
+			return ok
+		case <-time.After(45 * time.Second):
+			fmt.Printf("CHILD-VIOLATION after input %d the canary requests are not answered within 45 s\n", i)
+			return false
+		}
+	}
 	for i := 0; i < total; i++ {
 		method, raw := g.input()
 		if raw == nil {
 			continue
 		}
 		_, _ = lf.Write([]byte(fmt.Sprintf("%d %s %s\n", i, method, hex.EncodeToString(raw))))
-		outcome, err := c20Dispatch(st, ctx, method, raw)
-		if err != nil {
-			fmt.Printf("CHILD-VIOLATION input %d %s: %v\n", i, method, err)
+		type dres struct {
+			outcome string
+			err     error
+		}
+		ch := make(chan dres, 1)
+		go func() {
+			o, e := c20Dispatch(st, ctx, method, raw)
+			ch <- dres{o, e}
+		}()
+		var outcome string
+		select {
+		case d := <-ch:
+			outcome = d.outcome
+			if d.err != nil {
+				fmt.Printf("CHILD-VIOLATION input %d %s: %v\n", i, method, d.err)
+			}
+		case <-time.After(45 * time.Second):
+			fmt.Printf("CHILD-VIOLATION input %d %s was not answered within 45 s: the instance stopped answering\n", i, method)
+			return 4
 		}
 		counts[method+" "+outcome]++
 		if i%50 == 49 && !canary(i) {
